@@ -83,6 +83,10 @@ def configs(tier):
         for kind in ('rho', 'Sk0'):
             out.append(dict(family='final-cts', entry='Attack_rate_cts_time', K=K, kind=kind, its=2 if tier == 'quick' else 3, tags=['final', 'cts', kind]))
             out.append(dict(family='final-discrete', entry='Attack_rate_discrete', K=K, kind=kind, its=2 if tier == 'quick' else 3, tags=['final', 'discrete', kind]))
+            if K == 3:
+                # degree distributions with isolated nodes (P0 > 0): they stay susceptible and count towards psihat
+                out.append(dict(family='final-cts', entry='Attack_rate_cts_time', K=2, k0=True, kind=kind, its=2, tags=['final', 'cts', kind, 'degree-0']))
+                out.append(dict(family='final-discrete', entry='Attack_rate_discrete', K=2, k0=True, kind=kind, its=2, tags=['final', 'discrete', kind, 'degree-0']))
     for g in ['paw', 'irr5', 'S3']:      # S3 with its centre infected: no susceptible-susceptible edge at all (phiS0 = 0)
         for ic in ('rho', 'sets'):
             out.append(dict(family='final-graph', entry='Attack_rate_*_from_graph', graph=g, ic=ic, tags=['final', 'from_graph', g, ic]))
@@ -285,7 +289,7 @@ def run_final_cts(h, cfg):
     try:
         K = cfg['K']
         tau, gamma = eng.real('tau', lo=0, lo_strict=True), eng.real('gamma', lo=0, lo_strict=True)
-        Pk = {k: eng.real('P%d' % k, lo=0, lo_strict=True) for k in range(1, K + 1)}
+        Pk = {k: eng.real('P%d' % k, lo=0, lo_strict=True) for k in range(0 if cfg.get('k0') else 1, K + 1)}
         if cfg['kind'] == 'rho':
             rho = eng.real('rho', lo=0, hi=1, lo_strict=True, hi_strict=True)
             Sk0 = {k: 1 - rho for k in Pk}
@@ -298,7 +302,7 @@ def run_final_cts(h, cfg):
             phiR0 = eng.real('phiR0', lo=0, hi=1)
             kw = dict(Sk0=Sk0, phiS0=phiS0, phiR0=phiR0)
         psihat = lambda x: sum(Pk[k] * Sk0[k] * x ** k for k in Pk)
-        psihatP = lambda x: sum(k * Pk[k] * Sk0[k] * x ** (k - 1) for k in Pk)
+        psihatP = lambda x: sum(k * Pk[k] * Sk0[k] * x ** (k - 1) for k in Pk if k)
         pS = phiS0 if phiS0 is not None else psihatP(1) / sum(k * Pk[k] for k in Pk)
 
         def g(w):
@@ -345,7 +349,7 @@ def run_final_discrete(h, cfg):
         K = cfg['K']
         p = eng.real('p', lo=0, hi=1, lo_strict=True)
         N = eng.real('N', lo=0, lo_strict=True)
-        Pk = {k: eng.real('P%d' % k, lo=0, lo_strict=True) for k in range(1, K + 1)}
+        Pk = {k: eng.real('P%d' % k, lo=0, lo_strict=True) for k in range(0 if cfg.get('k0') else 1, K + 1)}
         if cfg['kind'] == 'rho':
             rho = eng.real('rho', lo=0, hi=1, lo_strict=True, hi_strict=True)
             Sk0 = {k: 1 - rho for k in Pk}
@@ -357,7 +361,7 @@ def run_final_discrete(h, cfg):
             phiR0 = eng.real('phiR0', lo=0, hi=1)
             kw = dict(Sk0=Sk0, phiS0=phiS0, phiR0=phiR0)
         psihat = lambda x: sum(Pk[k] * Sk0[k] * x ** k for k in Pk)
-        psihatP = lambda x: sum(k * Pk[k] * Sk0[k] * x ** (k - 1) for k in Pk)
+        psihatP = lambda x: sum(k * Pk[k] * Sk0[k] * x ** (k - 1) for k in Pk if k)
         pS = phiS0 if phiS0 is not None else psihatP(1) / sum(k * Pk[k] for k in Pk)
         prover = odex.IdProver(list(eng.pc))
         its = cfg['its']
@@ -548,7 +552,7 @@ def replay_concrete(cfg, kind, values, decisions):
         return {'reproduced': d > 2e-5, 'concrete_detail': {'max_abs_difference_of_S': d}}
     # final-size identities: evaluate numerically at the model
     K = cfg.get('K', 3)
-    Pk = {k: _num(values, 'P%d' % k, 1.0 / K) for k in range(1, K + 1)}
+    Pk = {k: _num(values, 'P%d' % k, 1.0 / K) for k in range(0 if cfg.get('k0') else 1, K + 1)}
     rho = _num(values, 'rho', 0.2)
     p_ = _num(values, 'p', 0.4)
     if fam in ('final-cts', 'final-discrete'):
@@ -564,7 +568,7 @@ def replay_concrete(cfg, kind, values, decisions):
                 phiS0, phiR0 = _num(values, 'phiS0', 0.6), _num(values, 'phiR0', 0.1)
                 kw = dict(Sk0=Sk0, phiS0=phiS0, phiR0=phiR0)
             psihat = lambda x: sum(Pk[k] * Sk0[k] * x ** k for k in Pk)
-            psihatP = lambda x: sum(k * Pk[k] * Sk0[k] * x ** (k - 1) for k in Pk)
+            psihatP = lambda x: sum(k * Pk[k] * Sk0[k] * x ** (k - 1) for k in Pk if k)
             pS = phiS0 if phiS0 is not None else psihatP(1) / sum(k * Pk[k] for k in Pk)
             if fam == 'final-cts':
                 got = an.Attack_rate_cts_time(Pk, tau, gamma, number_its=its, **kw)
